@@ -126,6 +126,32 @@ def mutate(rng, root, layout, info, klass):
         else:
             st = os.stat(p)
             ops.append({'op': 'utime', 'p': f, 'mt': st.st_mtime + rng.choice([-50, 7, 500])})
+    elif klass == 'rmdir-ignore-first':
+        # a whole directory of listed files disappears, and the first thing its
+        # Manifest says about that directory is an IGNORE for something inside it
+        cands = []
+        for f in files:
+            d = os.path.dirname(f)
+            if not d or d in info['mdirs'] or os.path.islink(os.path.join(root, d)) \
+                    or any(c.startswith('.') for c in d.split('/')) \
+                    or any(mtext.comp_prefix(v, d) or mtext.comp_prefix(d, v)
+                           for v in info['via_link']) \
+                    or any(mtext.comp_prefix(md, d) for md in info['mdirs'] if md) \
+                    or any(mtext.comp_prefix(ig, d) or mtext.comp_prefix(d, ig)
+                           for ig in info['ignores']):
+                continue
+            ents = _file_entries(layout, info, f)
+            if len(ents) == 1:
+                cands.append((f, d, ents[0][0]))
+        if not cands:
+            return None
+        f, d, mpath = rng.choice(sorted(cands))
+        rec['path'] = f
+        mdir = os.path.dirname(mpath)
+        rel = os.path.relpath(d, mdir) if mdir else d
+        layout['mans'][mpath]['entries'].insert(
+            0, {'tag': 'IGNORE', 'path': rel + '/' + rng.choice(['cache', 'zz-tmp', '0'])})
+        ops.append({'op': 'unlink', 'p': d})
     elif klass == 'hidden-listed':
         # a hidden file that a Manifest lists anyway is altered (content or size) or
         # replaced by a FIFO; entries are verified wherever they point
